@@ -128,9 +128,6 @@ func genFor(p *Program, prop string, only string) ([]*FuncResult, []string) {
 		if k.Kind != "func" || k.Abstract {
 			continue
 		}
-		if prop != "" && !hasProp(allProps(k), prop) {
-			continue
-		}
 		fn := p.funcs[k.Pkg+"."+k.Name]
 		if fn == nil {
 			problems = append(problems, fmt.Sprintf("contract %s: function not found in /repo (renamed or removed)", key))
@@ -244,9 +241,9 @@ func cmdCheck(args []string) int {
 			defer func() { <-sem }()
 			to := timeout
 			if w.O.Cover {
-				to = 5 * time.Second
+				to = 2 * time.Second
 			}
-			w.R = Solve(w.Ctx.Query(w.O, false), to, scratch)
+			w.R = Solve(w.Ctx.Query(w.O, false), to, scratch, w.O.Cover)
 		}()
 	}
 	wg.Wait()
